@@ -32,7 +32,7 @@ theorem JPast.trans {a b c : World} (hj1 : JPast a b) (hj2 : JPast b c) (ht2 : T
   | none =>
     obtain ⟨tb, h1, h2⟩ := hj1 k hk hb
     obtain ⟨tc, h3, _, _, h4⟩ := ht2 k tb h1
-    exact ⟨tc, h3, tCompleted_mono h4 h2⟩
+    exact ⟨tc, h3, tCompleted_mono h4.2 h2⟩
   | some j => exact hj2 k (by rw [hb]; rfl) hnone
 
 theorem jobs_same {w w' : World} (e : w'.jobs = w.jobs) : JPast w w' ∧ (JInv w → JInv w') := by
@@ -63,7 +63,7 @@ theorem apply_pres_job {hT w w' : World} {c : Call} (hP : TPast hT w) (hJ : JJus
       intro k hk hnone
       by_cases hkk : k = k'
       · subst hkk
-        exact ⟨tc, htc, tCompleted_mono hmono hcomp⟩
+        exact ⟨tc, htc, tCompleted_mono hmono.2 hcomp⟩
       · -- another key: filtering by key k' does not remove it
         exfalso
         unfold findJob at hk hnone
